@@ -522,6 +522,47 @@ Definition run_cfg (a : sx) : sx :=
   | _ => sx_err "cfg"
   end.
 
+(* c05.find: (cell key): tlb.ProveKeyInHashmap[tlb.Uint32] as a lookup in the
+   dictionary rooted at cell (Hashmap n Uint32, n = length of key)
+   -> ('found value) | 'err    (the proof bytes are C18's) *)
+Definition run_find (a : sx) : sx :=
+  match a with
+  | SL [c; SBits key] =>
+      match cell_sx c with
+      | Some c => sx_res (fun v => SL [SA "found"; SN v]) (find_key vdec_val c key)
+      | None => sx_err "find cell"
+      end
+  | _ => sx_err "find"
+  end.
+
+(* c05.bal: (split ((key grams|'none) ...) ((key grams|'none) ...)): ShardState.AccountBalances
+   over the accounts of an unsplit state (first list) or of the two halves of a split state;
+   'none = an account without balance -> ((key grams) ...) in key order *)
+Fixpoint accounts_sx (l : list sx) : option (list (bits * option N)) :=
+  match l with
+  | [] => Some []
+  | SL [SBits k; v] :: t =>
+      match accounts_sx t with
+      | Some m => Some ((k, match v with
+                           | SN g => Some g
+                           | SA s => if String.eqb s "accnone" then Some 0%N else None   (* account_none: zero balance *)
+                           | _ => None
+                           end) :: m)
+      | None => None
+      end
+  | _ => None
+  end.
+
+Definition run_bal (a : sx) : sx :=
+  match a with
+  | SL [SB split; SL l; SL r] =>
+      match accounts_sx l, accounts_sx r with
+      | Some l, Some r => sx_items (account_balances split l r)
+      | _, _ => sx_err "bal accounts"
+      end
+  | _ => sx_err "bal"
+  end.
+
 Definition run (name : string) (a : sx) : sx :=
   let is x := String.eqb name x in
   if is "c05.encode" then run_encode a
@@ -536,4 +577,6 @@ Definition run (name : string) (a : sx) : sx :=
   else if is "c05.lsize" then run_lsize a
   else if is "c05.aug" then run_aug a
   else if is "c05.cfg" then run_cfg a
+  else if is "c05.find" then run_find a
+  else if is "c05.bal" then run_bal a
   else sx_err "unknown case kind".
